@@ -189,7 +189,9 @@ def gen_lccb_pair(rng):
         pass  # identical layouts
     elif r < 0.6:
         # change the step of one or two positions
-        for p in rng.sample(pos, min(len(pos), rng.choice([1, 2]))):
+        # (biased to the larger steps so that a non-trivial common prefix of the contiguous chain remains)
+        big = sorted(pos, key=lambda p: a["dims"][p[0]][p[1]][1])[len(pos) // 3 :]
+        for p in rng.sample(big, min(len(big), rng.choice([1, 2]))):
             b["dims"][p[0]][p[1]][1] = b["dims"][p[0]][p[1]][1] * rng.choice([2, 3]) + rng.choice([0, 0, s0])
     elif r < 0.85:
         # another dense order over the same bounds
